@@ -406,7 +406,7 @@ def s4_in_full(ctx):
     for p in normal(ps):
         cs = [e for e in p.flat_events() if e.kind == 'call' and 'Portfolio.transact_asset' in e.callee]
         if not ctx.require(len(cs) == 1, 'C04.S4', 'an executed order produces exactly one fill [%s]' % cond_str(p), cs[0].site if cs else ctx.fn(qn).site(),
-                           '%d fills' % len(cs), key='C04.S4|one-fill'):
+                           __import__('qsverif.lib', fromlist=['read_marker']).read_marker(ctx, p) + '%d fills' % len(cs), key='C04.S4|one-fill'):
             continue
         n += 1
         txn = cs[0].args.get('txn')
